@@ -1126,8 +1126,8 @@ fn shape_of(scn: &Scenario) -> String {
 
 fn budget_runs(t: Tier) -> u64 {
     match t {
-        Tier::Quick => 24_000,
-        Tier::Thorough => 1_600_000,
+        Tier::Quick => 60_000,
+        Tier::Thorough => 2_000_000,
     }
 }
 
